@@ -164,6 +164,7 @@ fn case_spline<T: Elem>(case: u64, args: &Args, ev: &mut Ev, log: &mut EventLog)
     let n = match case % 5 {
         0 => 3,
         1 => 4,
+        _ if !small && case % 60 == 2 => *rng.pick(&[65usize, 257, 513, 700]),
         _ => rng.range(5, if small { 8 } else { 16 }),
     };
     let uniform = rng.chance(0.2);
